@@ -163,6 +163,16 @@ package moss
 //@   ensures @endnil endKeyExclusive == nil ==> curOf(r0).end == segLen(a)
 //@   ensures @end endKeyExclusive != nil ==> lowerBound(a, endKeyExclusive, curOf(r0).end)
 //@   ensures @ok cursorOK(curOf(r0))
+//@   ensures @assume_fn curOf(r0).start == lbOf(a, startKeyInclusive) && (endKeyExclusive != nil ==> curOf(r0).end == lbOf(a, endKeyExclusive))
+
+// Where a range starts in a segment, as a function of the segment's keys and
+// the bound (Cursor is deterministic; the value is characterised by
+// Cursor/ensures#start and #end).
+//@ pure abstract func lbOf(a *segment, key []byte) int reads segOK(a), keyRank(a, 0), rank(key)
+//@ pure func rangeNonEmpty(a *segment, s []byte, e []byte) bool = lbOf(a, s) < ite(e == nil, segLen(a), lbOf(a, e))
+// Number of levels lo..hi-1 of a stack that hold at least one entry of the range.
+//@ pure rec func srcCount(ss *segmentStack, lo int, hi int, s []byte, e []byte) int =
+//@     ite(hi <= lo, 0, srcCount(ss, lo, hi - 1, s, e) + ite(rangeNonEmpty(segAt(ss, hi - 1), s, e), 1, 0))
 
 //@ func (c *segmentCursor) Current() (operation uint64, key []byte, val []byte)
 //@   props C09 C01 C02 C10
@@ -1769,3 +1779,43 @@ package moss
 //@   ensures @merge len(iter.cursors) > 0 && curAt(iter, 0).op == OperationMerge && r2 == nil ==> r0 == curAt(iter, 0).k &&
 //@       r1 == fullMerge(moOf(iter.ss), curAt(iter, 0).k, readFrom(iter.ss, curAt(iter, 0).ssIndex - 1, curAt(iter, 0).k, iter.iteratorOptions.base, false), curAt(iter, 0).v)
 //@   ensures @set len(iter.cursors) > 0 && curAt(iter, 0).op != OperationDel && curAt(iter, 0).op != OperationMerge ==> r0 == curAt(iter, 0).k && r1 == curAt(iter, 0).v && r2 == nil
+
+// ---- heap iterator: one source per level that has entries in the range (C09, C01, C10) -------------------------------
+// Setting up the heap iterator adds exactly one cursor for every level whose
+// segment holds at least one entry of the range, whatever that entry is (an
+// empty key, an empty value, a deletion) - no level is passed over.
+//@ func Segment.Cursor
+//@   attr delegate *segment
+//@ func sharedPrefixLen$loops
+//@   loop 1: invariant 0 <= i
+//@ func (ss *segmentStack) startIterator(startKeyInclusive, endKeyExclusive []byte, iteratorOptions IteratorOptions) (*iterator, error)
+//@   props C09 C01 C10
+//@   attr obligations inv-entry inv-preserve
+//@   requires stackOK(ss) && 0 <= iteratorOptions.MinSegmentLevel && iteratorOptions.MaxSegmentHeight <= len(ss.a)
+//@   modifies *
+//@   loop 1: invariant iter != nil && fresh(iter) && iter.ss == ss && minSegmentLevel <= ssIndex && maxSegmentLevel < len(ss.a)
+//@   loop 1: invariant @everyLevel len(iter.cursors) == srcCount(ss, minSegmentLevel, ssIndex, startKeyInclusive, endKeyExclusive)
+
+// The heap order of the cursors: by key (compared past the prefix all keys of
+// the range share), and for the same key the entry of the NEWER level first -
+// that entry decides what the iterator shows for the key.
+//@ pure func cutKey(it *iterator, i int) []byte = curAt(it, i).k[it.prefixLen : len(curAt(it, i).k)]
+//@ func (iter *iterator) Less(i, j int) bool
+//@   props C09 C08 C01 C10
+//@   requires iter != nil && 0 <= i && i < len(iter.cursors) && 0 <= j && j < len(iter.cursors) && curAt(iter, i) != nil && curAt(iter, j) != nil &&
+//@       0 <= iter.prefixLen && iter.prefixLen <= len(curAt(iter, i).k) && iter.prefixLen <= len(curAt(iter, j).k)
+//@   ensures @order result <==> (rank(cutKey(iter, i)) < rank(cutKey(iter, j)) || (rank(cutKey(iter, i)) == rank(cutKey(iter, j)) && curAt(iter, i).ssIndex > curAt(iter, j).ssIndex))
+
+//@ func (iter *iterator) Swap(i, j int)
+//@   props C09
+//@   requires iter != nil && 0 <= i && i < len(iter.cursors) && 0 <= j && j < len(iter.cursors)
+//@   modifies elems(iter.cursors)
+//@   ensures @swapped curAt(iter, i) == old(curAt(iter, j)) && curAt(iter, j) == old(curAt(iter, i))
+//@   ensures @others forall p int :: 0 <= p && p < len(iter.cursors) && p != i && p != j ==> curAt(iter, p) == old(curAt(iter, p))
+
+//@ func (iter *iterator) Pop() interface{}
+//@   props C09
+//@   requires iter != nil && len(iter.cursors) >= 1
+//@   modifies iter.cursors
+//@   ensures @shrunk len(iter.cursors) == old(len(iter.cursors)) - 1 && arr(iter.cursors) == old(arr(iter.cursors)) && off(iter.cursors) == old(off(iter.cursors))
+//@   ensures @last typeIs(result, "*cursor") && ptrOf(result, "*cursor") == old(curAt(iter, len(iter.cursors) - 1))
